@@ -67,6 +67,7 @@ import (
 	"hash/fnv"
 	"os"
 	"runtime"
+	"strconv"
 	"strings"
 	"time"
 )
@@ -137,6 +138,9 @@ type Exec struct {
 	parkSeq  int64
 	paranoid bool
 	horizon  int64
+	quiet    uint
+	keyBuf   strings.Builder
+	tmp      [24]byte
 }
 
 type schedObj interface{ schedState(b *strings.Builder) }
@@ -482,16 +486,35 @@ func (r *schedReg) register(x *Exec, o schedObj) bool {
 	return true
 }
 
+func wInt(b *strings.Builder, v int64) {
+	var tmp [24]byte
+	b.Write(strconv.AppendInt(tmp[:0], v, 36))
+	b.WriteByte(';')
+}
+
 func (x *Exec) stateKey() schedKey {
-	var b strings.Builder
+	b := &x.keyBuf
+	b.Reset()
 	for _, t := range x.threads {
-		fmt.Fprintf(&b, "%d:%d:%x:%v:%v;", t.id, t.points, t.hist, t.done, t.selDone)
+		wInt(b, int64(t.points))
+		b.Write(strconv.AppendUint(x.tmp[:0], t.hist, 36))
+		if t.done {
+			b.WriteByte('D')
+		}
+		if t.selDone {
+			b.WriteByte('S')
+		}
+		if t.condSignalled {
+			b.WriteByte('C')
+		}
+		b.WriteByte(';')
 	}
 	for _, o := range x.objs {
-		o.schedState(&b)
+		o.schedState(b)
 		b.WriteByte('|')
 	}
-	fmt.Fprintf(&b, "T%d/%d", x.now, len(x.timers))
+	wInt(b, x.now)
+	wInt(b, int64(len(x.timers)))
 	if x.ExtraKey != nil {
 		b.WriteString(x.ExtraKey())
 	}
@@ -514,6 +537,7 @@ type SchedTest struct {
 	Name     string
 	Setup    func(x *Exec)
 	MaxSteps int   // default 4000
+	Quiet    uint  // QuietPool|QuietAtomic|QuietUnlock: these non-blocking shims execute without being scheduling points
 	Horizon  int64 // virtual-time horizon in ns beyond which timers no longer fire (default 1h)
 }
 
@@ -528,6 +552,16 @@ type ExecResult struct {
 	Blocked []string
 	Threads []string
 }
+
+// Quiet flags: operations that never block and whose interleaving a harness declares irrelevant to its property.
+const (
+	QuietPool   uint = 1 << iota // Pool.Get/Put (deterministic LIFO free list either way)
+	QuietAtomic                  // atomic loads/stores/adds (e.g. statistics counters)
+	// QuietUnlock: Mutex/RWMutex Unlock is not a scheduling point of its own. Sound for data-race-free code: a thread
+	// that would run between the Unlock point and the Unlock either blocks on that lock or is independent of it, so the
+	// same behaviours are reached from the neighbouring points. Roughly halves the points of lock-heavy code.
+	QuietUnlock
+)
 
 var schedWatchdog = 20 * time.Second
 
@@ -546,7 +580,7 @@ func RunSchedule(t *SchedTest, prefix []int32, wantKey, paranoid bool) *ExecResu
 	}
 	schedEpoch++
 	x := &Exec{prefix: prefix, epoch: schedEpoch, endCh: schedEndCh, exitCh: schedExitCh,
-		wantKey: wantKey, MaxSteps: t.MaxSteps, paranoid: paranoid, horizon: t.Horizon}
+		wantKey: wantKey, MaxSteps: t.MaxSteps, paranoid: paranoid, horizon: t.Horizon, quiet: t.Quiet}
 	if x.MaxSteps == 0 {
 		x.MaxSteps = 4000
 	}
